@@ -1,3 +1,4 @@
 import Cgm.Lemmas.AuditCmd
 import Cgm.Props.C11
+import Cgm.Props.C11b
 #audit_namespace Cg.C11
